@@ -126,10 +126,19 @@ func (s *JavaAPIListener) EnterAnnotation(ctx *parser.AnnotationContext) {
 			}
 			if pair.Identifier().GetText() == "value" {
 				text := pair.ElementValue().GetText()
-				currentRestAPI.Uri = baseApiUrl + text[1:len(text)-1]
+				currentRestAPI.Uri = baseApiUrl + trimEnclosing(text)
 			}
 		}
 	}
+}
+
+// trimEnclosing drops the quotes around a mapping value; a value too short to be enclosed
+// (a one-letter constant such as `value = x`) is kept as written
+func trimEnclosing(text string) string {
+	if len(text) < 2 {
+		return text
+	}
+	return text[1 : len(text)-1]
 }
 
 func buildBaseApiUrlString(annotationName string, ctx *parser.AnnotationContext) {
@@ -141,12 +150,12 @@ func buildBaseApiUrlString(annotationName string, ctx *parser.AnnotationContext)
 				pair := valuePair.(*parser.ElementValuePairContext)
 				if pair.Identifier().GetText() == "value" {
 					text := pair.ElementValue().GetText()
-					baseApiUrl = text[1 : len(text)-1]
+					baseApiUrl = trimEnclosing(text)
 				}
 			}
 		} else if ctx.ElementValue() != nil {
 			text := ctx.ElementValue().GetText()
-			baseApiUrl = text[1 : len(text)-1]
+			baseApiUrl = trimEnclosing(text)
 		} else {
 			baseApiUrl = "/"
 		}
